@@ -51,7 +51,8 @@ let run_pure () =
      while true do
        let line = input_line stdin in
        incr lineno;
-       if line <> "" && line.[0] <> '#' then begin
+       if String.length line > 8 && String.sub line 0 8 = "MONITOR " then print_endline line
+       else if line <> "" && line.[0] <> '#' then begin
          let f = Array.of_list (String.split_on_char '|' line) in
          let tag = f.(0) in
          let st = stat tag in
